@@ -86,7 +86,11 @@ func cases(tier string, seed int64) []eng.Case {
 		if variant != "" {
 			id += "/" + variant
 		}
-		out = append(out, eng.Case{ID: id, Sig: "C10|race/" + group, Desc: cc, Run: func(c *eng.Ctx) { g.race(c, cc) }})
+		sig := "C10|race/" + group
+		if group == "rlwe-late" {
+			sig = "C10|rlwe.Evaluator.ShallowCopy|race/late-galois-keys"
+		}
+		out = append(out, eng.Case{ID: id, Sig: sig, Desc: cc, Run: func(c *eng.Ctx) { g.race(c, cc) }})
 	}
 	enumerate(r, thorough, add, addRace)
 	return out
